@@ -35,7 +35,7 @@ def _one(c):
   from dinosaur import primitive_equations as pe
   out = []
   den = c['den']
-  bounds = np.array(c['b'], dtype=np.float64) / den
+  bounds = np.array([float('nan') if v < 0 else v for v in c['b']], dtype=np.float64) / den   # -1 = NaNTok
 
   def bad(sig, detail):
     out.append({'case': {k: c[k] for k in ('b', 'den', 'valid')}, 'sig': sig, 'detail': detail})
